@@ -126,6 +126,9 @@ def unboundLocal {α} : Option α → Except AmpyErr α
   | some v => .ok v
   | none => .error (.other "UnboundLocalError")
 
+/-- Python's `str(n)` for an `int`: decimal digits, `-` in front of a negative number. -/
+def pyStrInt (n : Int) : String := toString n
+
 /-- Python's `int(x)` for an exact rational (truncation toward zero). -/
 def truncRat (r : Rat) : Int := if 0 ≤ r then r.floor else r.ceil
 
